@@ -700,6 +700,18 @@ theorem C08_method_binding (W : World N V T) (hW : LowerIdem W) (c : Ctx) (full 
           subst hexp
           simp [consFirst]
 
+/-! ### the result -/
+
+/-- **the returned value**: what the caller gets is the body's result converted to the return annotation, and a
+result that does not convert is a ParseError (func.py:703-712); without annotation the result is handed through -/
+theorem C08_result_conforms (W : World N V T) (ret : Option T) (r : V) :
+    parseResult W ret r = match Spec.convO W ret r with
+      | some v => .ok v
+      | none => .perr := by
+  unfold parseResult
+  rw [convBy_eq]
+  cases Spec.convO W ret r <;> rfl
+
 /-! ### witnesses: the full statement is false of the code, the hypotheses are satisfiable -/
 
 /-- a concrete world: names, values and types are numbers; names ≥ 1000 are private; `lower` folds 500-999 onto
